@@ -262,7 +262,7 @@ OpGetsym(s, sym, f) ==
 (* NULL arguments (stated for the whole library by C16/C20: soft failure at debug level 0, the ASSERT is fatal above) *)
 Soft(lvl) == IF lvl >= 1 THEN 99 ELSE 0
 NullFns == {"init", "done", "del", "dup", "type", "load", "unload", "run", "call", "getsym"}
-NullOffered == Bounded => \A s \in Slots : o[s].name = 0      \* a bound of the model, not of the contract: offered beside unnamed objects only
+NullOffered == Bounded => \A s \in Slots : (o[s].name = 0 /\ o[s].path = 0)   \* a bound of the model, not of the contract: offered beside no object or objects without name and path
 OpNullSelf(fn, lvl) == /\ fn \in NullFns /\ NullOffered /\ Same("null_self", <<fn, lvl>>, Soft(lvl), TRUE)
 OpNullSym(s, lvl)   == /\ o[s].live /\ NullOffered /\ Same("null_sym", <<s, lvl>>, Soft(lvl), TRUE)        \* getsym(m, NULL)
 OpNullFname(s, lvl) == /\ o[s].live /\ NullOffered /\ Same("null_fname", <<s, lvl>>, Soft(lvl), TRUE)      \* call(m, NULL, d)
